@@ -44,7 +44,7 @@ func (p *c15) Rule() string {
 	return "seeded scripts of 1-8 service-info messages (key lengths 1-60, value lengths 1-3000, arbitrary splits into writes, forced message breaks), MTU from the minimum usable size to 1500 (plus a deterministic sweep that places the space left in a batch at every remainder 0..40 when the next key arrives), buffered and unbuffered pipes, and a kernel-chosen interleaving (uniform random or PCT) of the producer, the batching consumer and the reassembler through the yield hooks of serviceinfo/chunk.go; oracle: reassembled (key, bytes) sequence equals the script (consecutive equal keys concatenated), every chunk's independently computed CBOR size fits the size it was asked for, every batch fits the MTU, a forced break starts a new batch, no error on either side, no deadlock; non-trivial = at least two tasks were runnable at some step; distinct = distinct (script, schedule, outcome)"
 }
 func (p *c15) DeadlockIsViolation() bool { return true }
-func (p *c15) Exhaustive(string) bool { return false }
+func (p *c15) Exhaustive(string) bool    { return false }
 func (p *c15) Components() map[string][]string {
 	return map[string][]string{
 		"real": {"serviceinfo.ChunkReader/UnchunkWriter (device -> wire)", "serviceinfo.ChunkWriter/UnchunkReader (wire -> module)", "bufPipe and io.Pipe hand-off", "KV.Size / ArraySizeCBOR as used by the caller"},
